@@ -148,6 +148,12 @@ def parts(tier):
                     bound='6 policies x 3 (transport timeout, read timeout, seconds per call) x 2 twins', min_outcomes=2))
     out.append(Part('slow-fragments-dfs', [{'twin': t, 'timing': timings[1]} for t in twins], run_frag, {'frag': 1},
                     what='every single fragment deviation on the advancing clock (transport timeout 0.05 s, read timeout 10 s, 0.01 s per call)', bound='frag deviations <= 1'))
+    from . import c02
+    out.append(Part('two-devices-fragmented', [{'twin': 'async', 'frag': True}], c02.run_two_devices, {'io-order': 1, 'frag': 1, 'dev-order': 0}, split=2, min_outcomes=1,
+                    what='two device objects used from two asyncio tasks, the reads of one of them fragmented: every placement of one fragment deviation x one deviation from the default I/O completion order',
+                    bound='frag deviations <= 1, io-order deviations <= 1'))
+    out.append(Part('two-devices-fragmented-threads', [{'twin': 'sync', 'frag': True}], c02.run_two_devices, {'sched': 1, 'frag': 1, 'dev-order': 0}, split=2, min_outcomes=1,
+                    what='the same with two threads: one preemption x one fragment deviation', bound='preemptions <= 1, frag deviations <= 1'))
     ref = reference('sync')
     muts = []
     cmds = []
